@@ -296,7 +296,7 @@ class Snap:
 
 
 def model_broken(tok):
-    """number of half-parsed modules the model sees in the context (F54); model-only field"""
+    """number of half-parsed modules the model sees in the context (F134); model-only field"""
     return int(tok.split("|x=")[1]) if "|x=" in tok else 0
 
 
@@ -656,24 +656,24 @@ def witnesses():
     h = History(); a = h.add(W_A()); h.parse(a); h.impl("aaa", None, ["f2"]); w["F4"] = ("F4", h, 1)
     h = History(); a = h.add(W_A()); t = h.add(W_Top()); h.parse(t); h.impl("aaa", None, ["f2"]); w["F4-imported"] = ("F4", h, 1)
     h = History(); a = h.add(W_A()); h.parse(a); h.load("aaa", None, ["f2"]); w["F4-load"] = ("F4", h, 1)
-    h = History(EXPLICIT); a = h.add(W_A()); b = h.add(W_Bsyntax()); h.parse(a); h.parse(b); w["F51"] = ("F51", h, 1)
-    h = History(); a = h.add(W_A19()); h.parse(a); b = h.add(W_A20late()); h.parse(b); w["F50"] = ("F50", h, 1)
+    h = History(EXPLICIT); a = h.add(W_A()); b = h.add(W_Bsyntax()); h.parse(a); h.parse(b); w["F131"] = ("F131", h, 1)
+    h = History(); a = h.add(W_A19()); h.parse(a); b = h.add(W_A20late()); h.parse(b); w["F130"] = ("F130", h, 1)
     h = History(); a = h.add(W_A()); h.parse(a); h.data("aaa"); b = h.add(W_Bbad()); h.parse(b); w["F24"] = ("F24", h, 2)
     h = History(touch=True); a = h.add(W_A()); h.parse(a); h.data("aaa"); b = h.add(W_Bbad()); h.parse(b); w["F24-touch"] = ("F24", h, 2)
     h = History(); h.add(W_A19()); x = h.add(W_X()); h.parse(x); b = h.add(W_Bbad()); h.parse(b)
-    h.add(W_A20()); h.load("aaa", "2020-01-01"); c = h.add(W_C()); h.parse(c); w["F52"] = ("F52", h, 1)
+    h.add(W_A20()); h.load("aaa", "2020-01-01"); c = h.add(W_C()); h.parse(c); w["F132"] = ("F132", h, 1)
     h = History(); h.add(W_A19()); x = h.add(W_X()); h.parse(x); h.add(W_A20late()); t = h.add(W_Top()); h.parse(t)
-    w["F54"] = ("F54", h, 1)
+    w["F134"] = ("F134", h, 1)
     bad = apply_edit(W_A20(), "include")
     h = History(); h.add(W_A19()); x = h.add(W_X()); h.parse(x); h.add(bad); t = h.add(W_Top()); h.parse(t)
-    w["F54-crash"] = ("F54", h, 1)
+    w["F134-crash"] = ("F134", h, 1)
     h = History(); a = h.add(W_A()); b = h.add(W_B2()); h.parse(a); h.parse(b, ["g1"]); h.impl("bbb", None, []); w["F23"] = ("F23", h, 2)
-    h = History(EXPLICIT); a = h.add(W_A()); h.parse(a); h.compile(); h.impl("aaa", None, ["f1"]); w["F53"] = ("F53", h, 2)
-    h = History(); b = h.add(W_B2()); h.add(W_B2new()); h.parse(b); w["F55"] = ("F55", h, 0)
+    h = History(EXPLICIT); a = h.add(W_A()); h.parse(a); h.compile(); h.impl("aaa", None, ["f1"]); w["F133"] = ("F133", h, 2)
+    h = History(); b = h.add(W_B2()); h.add(W_B2new()); h.parse(b); w["F135"] = ("F135", h, 0)
     ma = Mod("maa", "2019-01-01", feats=[Feat("f1")])
     mb = Mod("mbb", "2019-01-01", imports=[("maa", "2019-01-01")], augments=["maa"])
     mc = Mod("mcc", "2020-02-02", imports=[("maa", "2019-01-01"), ("mbb", "2019-01-01")], lrefs=["mbb"])
     md = Mod("mdd", None, imports=[("maa", None), ("mcc", None)], lrefs=["mcc"])
     mz = apply_edit(Mod("mzz", None, imports=[("maa", None)]), "typedef")
-    h = History(); [h.add(x) for x in (ma, mb, mc, md)]; h.parse(md); h.add(mz); h.parse(mz); w["F57"] = ("F57", h, 1)
+    h = History(); [h.add(x) for x in (ma, mb, mc, md)]; h.parse(md); h.add(mz); h.parse(mz); w["F137"] = ("F137", h, 1)
     return w
